@@ -259,8 +259,10 @@ def write_evidence(args, seed, results, n_obl, n_dis, bounded, undecided, violat
             "assumption_audits": [dict(a, unit=r["unit"]) for r in results for a in r.get("audits", [])],
             "samples": samples or [{"note": "no obligation ran"}],
             "units": [{"unit": r["unit"], "backend": r["backend_label"], "wall_s": round(r.get("wall_s", 0), 2),
-                       "obligations": [{"id": o["id"], "status": o["status"], "time_s": o.get("time_s"),
-                                        "bounded": o.get("bounded", False)} for o in r["obligations"] if o.get("_counted")]}
+                       "obligations": [dict({"id": o["id"], "status": o["status"], "time_s": o.get("time_s"),
+                                             "bounded": o.get("bounded", False)},
+                                            **({"solver": o["solver"]} if o.get("solver") else {}))
+                                       for o in r["obligations"] if o.get("_counted")]}
                       for r in results],
         },
         "assumptions": sorted(set(assumptions)) + meta.get("assumptions", []),
